@@ -205,6 +205,8 @@ def run(ctx):
     run_traces(ctx, "c14_conv0", [[ctx.seed * 10 + i, 4000 if ctx.thorough else 1500] for i in range(4 if ctx.thorough else 2)], None, None, "L-api convenience zero-length", "conv0", timeout=400)
     # every placement of close / stop relative to an operation in flight (stop after a close that has taken effect included)
     run_traces(ctx, "c14_stopclose", [[ctx.seed * 10 + i, 150 if ctx.thorough else 50] for i in range(3 if ctx.thorough else 2)], None, None, "L-api close/stop placement", "stopclose", timeout=400)
+    # fault sequence "an operation fails with EBADF": conservation for the other operations of the descriptor, other files untouched (F42)
+    run_traces(ctx, "c14_ebadf", [[ctx.seed * 10 + i, 24 if ctx.thorough else 8] for i in range(3 if ctx.thorough else 2)], None, None, "L-api EBADF fault sequence", "ebadf", timeout=600)
     # known finding F31: a zero-length operation overtakes an earlier operation of its direction that is still waiting
     forced(ctx, "f31_zero_length_order", "F31", "io:order:zero-length-overtakes:forced-F31", "F31")
     # cleanup orchestration: the recorded history of the descriptor entry's close queue (suspensions / resumptions, handler calls,
